@@ -8,6 +8,9 @@ import CdsVerif.Algo.Treiber.Model
 import CdsVerif.Algo.MSQueue.Model
 import CdsVerif.Algo.Ring.Model
 import CdsVerif.Algo.Vyukov.Model
+import CdsVerif.Algo.FreeList.Model
+import CdsVerif.Algo.TaggedFreeList.Model
+import CdsVerif.Algo.ReentrantSpin.Model
 open CdsVerif.Driver
 
 partial def lcLoop (h : IO.FS.Stream) (st : LcState) : IO Unit := do
@@ -90,6 +93,18 @@ def main (args : List String) : IO UInt32 := do
     -- initial state from the header words `cap=<capacity()>` and `rot=<warm-up rotations>`
     replayLoop stdin CdsVerif.Algo.Vyukov.model (fun cfg => CdsVerif.Algo.Vyukov.initCfg cfg)
       (fun loc => loc == "posEnq" || loc == "posDeq" || loc.startsWith "seq") (fun _ => true) none
+    return 0
+  | ["replay", "freelist"] =>
+    replayLoop stdin CdsVerif.Algo.FreeList.model (fun cfg => CdsVerif.Algo.FreeList.initCfg cfg)
+      (fun loc => loc == "head" || loc.startsWith "n") (fun _ => true) none
+    return 0
+  | ["replay", "tagged"] =>
+    replayLoop stdin CdsVerif.Algo.TaggedFreeList.model (fun cfg => CdsVerif.Algo.TaggedFreeList.initCfg cfg)
+      (fun loc => loc == "head" || loc.startsWith "n") (fun _ => true) none
+    return 0
+  | ["replay", "reentrant"] =>
+    replayLoop stdin CdsVerif.Algo.ReentrantSpin.model (fun _ => CdsVerif.Algo.ReentrantSpin.init)
+      (fun loc => loc.startsWith "L") (fun _ => true) none
     return 0
   | ["replay", "ring"] =>
     -- initial state from the header words `cap=<capacity()>` and (optional) `rot=<warm-up rotations>`
